@@ -162,3 +162,44 @@ def argdesc(prog, n):
     if root is not None and all(not p.startswith(".") or p in (".as_ref()", ".as_slice()", ".as_str()", ".as_bytes()", ".borrow()") for p in path):
         return ("place", ".".join([str(root)] + [p for p in path if not p.startswith(".")]))
     return ("expr", core.fingerprint(n0, 5))
+
+
+def param_lid_by_type(fn, pred):
+    """lid of the single parameter whose type satisfies pred(type string)"""
+    hits = [prm["lid"] for prm in fn.params if pred((prm.get("ty") or ""))]
+    return hits[0] if len(hits) == 1 else None
+
+
+def derives_from(fn, e, lid, depth=0):
+    """the expression mentions the local `lid` directly or through immutable lets"""
+    lets = {st["pat"].get("lid"): st["init"] for st in core.walk_lets(fn.body) if "init" in st and st["pat"].get("k") == "Binding"}
+    seen = set()
+    stack = [e]
+    while stack and depth < 200:
+        depth += 1
+        x = stack.pop()
+        for y in core.walk(x):
+            if y.get("k") == "Path" and y.get("res") == "local":
+                if y["lid"] == lid:
+                    return True
+                if y["lid"] in lets and y["lid"] not in seen:
+                    seen.add(y["lid"])
+                    stack.append(lets[y["lid"]])
+    return False
+
+
+def local_from_call(fn, e, callee_suffix):
+    """the expression is (a let-bound local holding) the result of a call whose callee ends with callee_suffix"""
+    lets = {st["pat"].get("lid"): st["init"] for st in core.walk_lets(fn.body) if "init" in st and st["pat"].get("k") == "Binding"}
+    e0 = core.strip(e)
+    for _ in range(4):
+        if any(x.get("k") in ("Call", "MethodCall") and (core.callee_generic(x) or "").endswith(callee_suffix) for x in core.walk(e0)):
+            return True
+        if e0.get("k") == "Path" and e0.get("res") == "local" and e0["lid"] in lets:
+            e0 = core.strip(lets[e0["lid"]])
+            continue
+        for y in core.walk(e0):
+            if y.get("k") == "Path" and y.get("res") == "local" and y["lid"] in lets and any(x.get("k") in ("Call", "MethodCall") and (core.callee_generic(x) or "").endswith(callee_suffix) for x in core.walk(lets[y["lid"]])):
+                return True
+        break
+    return False
